@@ -15,11 +15,19 @@ echo "== demo WITHOUT the change (must pass)"; bash -c "$democmd" > "$cand/demo_
 git apply "$cand/patch.diff" || { echo "patch does not apply"; exit 2; }
 echo "== build"; go build ./... ; rc_build=$?
 echo "== demo WITH the change (must fail)"; bash -c "$democmd" > "$cand/demo_with.log" 2>&1; rc_with=$?; tail -5 "$cand/demo_with.log"
-rm -f "$wt/$demodir/$demo"
+git clean -fdq   # drop the demonstration files (untracked); the patch itself stays applied
 rc_suite=skipped
 if [ -z "$skipsuite" ]; then
   echo "== existing test suite with the change (must pass)"
   go test -vet=off -count=1 -timeout 25m ./... > "$cand/suite_with.log" 2>&1; rc_suite=$?
+  # packages that listen on fixed ports (tests/*_scenario, acceptance) collide with other runs on this machine: retry them alone
+  for try in 1 2 3; do
+    [ $rc_suite -eq 0 ] && break
+    failed=$(grep '^FAIL[[:space:]]' "$cand/suite_with.log" | awk '{print $2}' | sort -u)
+    [ -z "$failed" ] && break
+    sleep $((RANDOM % 20))
+    go test -vet=off -count=1 -timeout 25m $failed > "$cand/suite_with.log" 2>&1; rc_suite=$?
+  done
   grep -v '^ok\|no test files' "$cand/suite_with.log" | head -10
 fi
 cd /verif
